@@ -58,6 +58,10 @@ class HV(bytes):
 
     __hash__ = None
 
+    def __getitem__(self, key):
+        # slices of a hash value are only ever used for log prefixes / messages: hand out plain constant bytes
+        return _BODY[key]
+
     def __repr__(self):
         return "HV(%r)" % (self.v,)
 
@@ -162,6 +166,10 @@ def install(module):
         module.pair_hash = ideal_pair_hash
     if hasattr(module, "empty_leaf_hash"):
         module.empty_leaf_hash = ideal_empty_leaf_hash
+    if module.__name__ == "allmydata.hashtree":
+        # base32.b2a only renders hash values into BadHashError messages (b32-encoding 32 bytes under the tracer
+        # costs ~100 ms per path); the message text is not part of any property
+        module.base32 = hlib.NS(b2a=lambda b: b"<hash>", b2a_or_none=lambda b: None if b is None else b"<hash>")
 
 
 def same(a, b):
@@ -173,5 +181,67 @@ def same(a, b):
     return a.v == b.v
 
 
+B32_NOTE = "hashtree.base32.b2a (used only to render hashes into BadHashError messages) replaced by a constant"
 MODEL_NOTE = ("ideal hash: hashtree.pair_hash / empty_leaf_hash replaced by an injective piecewise-linear "
               "constructor over integer ids (harness/_merkle.py); hash values are bytes-subclass tokens compared by id")
+
+
+# ---- reachable pre-state family of an IncompleteHashTree (proved inductive in C35) -------------
+
+def family_ok(n, X, xs=None):
+    """X[i] (i < 7): internal node i is 'expanded' (both children validated).  Held set = root + children of
+    expanded nodes; an expanded non-root node has an expanded parent; only internal nodes can be expanded.
+    xs: optional case split = the exact list of expanded nodes."""
+    w = pow2_at_least(n)
+    if xs is not None:
+        for i in range(len(X)):
+            if X[i] != (i in xs):
+                return False
+    for i in range(len(X)):
+        if i >= w - 1:
+            if X[i]:
+                return False
+        elif i > 0 and X[i] and not X[(i - 1) // 2]:
+            return False
+    return True
+
+
+def mk_family(hashtree, n, X, leaf_tokens):
+    """(genuine HashTree over leaf_tokens, IncompleteHashTree(n) holding the genuine root and the family nodes)"""
+    gen = hashtree.HashTree(list(leaf_tokens))
+    iht = hashtree.IncompleteHashTree(n)
+    if len(iht) != len(gen):
+        raise hlib.HarnessError("tree shapes differ")
+    iht[0] = gen[0]
+    for i in range(len(X)):
+        if X[i]:
+            iht[2 * i + 1] = gen[2 * i + 1]
+            iht[2 * i + 2] = gen[2 * i + 2]
+    return gen, iht
+
+
+def tree_unchanged(before, iht):
+    if len(before) != len(iht):
+        return False
+    for i in range(len(before)):
+        if not same(before[i], iht[i]):
+            return False
+    return True
+
+
+def tree_genuine(gen, iht):
+    for i in range(len(iht)):
+        if iht[i] is not None and not same(iht[i], gen[i]):
+            return False
+    return True
+
+
+def tree_family(iht):
+    if iht[0] is None:
+        return False
+    for i in range(1, len(iht)):
+        if iht[i] is not None:
+            sib = i + 1 if i % 2 == 1 else i - 1
+            if iht[sib] is None or iht[(i - 1) // 2] is None:
+                return False
+    return True
